@@ -363,3 +363,40 @@ func TestDumpRoundTrip(t *testing.T) {
 	}
 	eq(t, "ta round trip", m.Dump(ta2), d)
 }
+
+func TestForInWithMutation(t *testing.T) {
+	m := &Machine{}
+	p := NewObject("p", nil)
+	o := NewObject("o", p)
+	for _, k := range []string{"a", "b", "c"} {
+		m.CreateDataProperty(o, StrKey(k), Num(1))
+	}
+	m.CreateDataProperty(p, StrKey("c"), Num(1))
+	m.CreateDataProperty(p, StrKey("d"), Num(1))
+	it := m.NewForIn(o)
+	k, _ := it.Next()
+	eq(t, "first", k.S, "a")
+	m.Delete(o, StrKey("b"))                     // deleted before its turn: skipped
+	m.CreateDataProperty(o, StrKey("z"), Num(1)) // added during the iteration: not visited
+	m.CreateDataProperty(p, StrKey("e"), Num(1)) // the prototype has not been reached yet: visited
+	var rest []Key
+	for k, ok := it.Next(); ok; k, ok = it.Next() {
+		rest = append(rest, k)
+	}
+	eq(t, "rest", RenderKeys(rest), "[s:c,s:d,s:e]")
+	m.CreateDataProperty(o, StrKey("7"), Num(1))
+	eq(t, "order afterwards", RenderKeys(m.OwnPropertyKeys(o)), "[s:7,s:a,s:c,s:z]")
+	// a getter that deletes a later key: CopyDataProperties skips it
+	src := NewObject("src", nil)
+	g := NewFunction("g", nil, func(m *Machine, this Value, _ []Value) (Value, *Throw) {
+		m.Delete(this.O, StrKey("y"))
+		return Num(5), nil
+	})
+	m.DefineOwnProperty(src, StrKey("x"), Desc{HasGet: true, Get: ObjV(g), HasE: true, E: true, HasC: true, C: true})
+	m.CreateDataProperty(src, StrKey("y"), Num(1))
+	m.CreateDataProperty(src, StrKey("w"), Num(2))
+	es, _ := m.CopyEnumerableOwn(src, false)
+	if len(es) != 2 || es[0].K.S != "x" || es[1].K.S != "w" {
+		t.Errorf("CopyEnumerableOwn: %v", es)
+	}
+}
